@@ -259,6 +259,14 @@ func NewDriver(r *Run) *Driver {
 		top := TopFabioFrame(stack)
 		r.Fail("panic", top, "task %s panicked: %v\n%s", task, v, trimStack(stack))
 	}
+	s.DriverG = simhook.Goid()
+	s.Quiesce = synctest.Wait
+	s.StepTask = func(t *simhook.Task) {
+		d.R.Tracef("run %s @%s (holds a lock the driver needs)", t.Name, t.SiteName())
+		d.R.res.Steps++
+		s.Release(t)
+		synctest.Wait()
+	}
 	simhook.Start(s)
 	return d
 }
@@ -392,6 +400,37 @@ func (d *Driver) Advance(dt time.Duration) {
 	d.R.Tracef("clock +%s", dt)
 	time.Sleep(dt)
 	synctest.Wait()
+}
+
+// RunTasks releases enabled tasks (and nothing else: no other event source is consulted), each chosen by the
+// schedule tape, until no task stands at a statement any more or max steps were made.
+func (d *Driver) RunTasks(max int) {
+	src := d.Sources
+	d.Sources = nil
+	defer func() { d.Sources = src }()
+	for i := 0; i < max && d.Step(); i++ {
+	}
+	synctest.Wait()
+}
+
+// AdvanceRunningTasks moves the simulated clock by dt in slices and lets every task that becomes enabled on the
+// way (a timer fired, a sleep ended) run on until it blocks again, so that no simulated time passes while a task
+// stands at a statement of fabio code.
+func (d *Driver) AdvanceRunningTasks(dt, slice time.Duration) {
+	d.R.Tracef("clock +%s (tasks run on)", dt)
+	end := time.Now().Add(dt)
+	for {
+		d.RunTasks(5000)
+		rem := time.Until(end)
+		if rem <= 0 {
+			return
+		}
+		if rem > slice {
+			rem = slice
+		}
+		time.Sleep(rem)
+		synctest.Wait()
+	}
 }
 
 // Hint tells the driver that something scheduled by the harness (a scripted
